@@ -40,9 +40,9 @@ Init ==
 Call == ncalls < MaxCalls /\ ncalls' = ncalls + 1
 
 \* an unresolved cycle of plain connections (self-connections included)
-RECURSIVE Reach(_, _, _)
-Reach(S, C, k) == IF k = 0 THEN S ELSE Reach(S \cup {c[2] : c \in {d \in C : d[1] \in S}}, C, k - 1)
-Cyclic(C) == \E c \in C : c[1] \in Reach({c[2]}, C, Cardinality(Sids))
+\* (a closed walk along the connections; at most one visit per simulator is needed, so walks of bounded length suffice)
+Walks == UNION {[1..k -> Sids] : k \in 2..(Cardinality(Sids) + 1)}
+Cyclic(C) == \E w \in Walks : w[1] = w[Len(w)] /\ \A i \in 1..(Len(w) - 1) : <<w[i], w[i + 1]>> \in C
 
 Start(s) ==
   /\ Call
